@@ -1,18 +1,19 @@
 #!/bin/bash
-# Regenerates /verif/harness/go.mod from /repo/go.mod (so the harness always links /repo's current tree).
+# Regenerates /verif/harness/go.mod from $R/go.mod (so the harness always links /repo's current tree).
 set -euo pipefail
 V=/verif
-H=$V/harness
+R=${1:-/repo}
+H=${2:-$V/harness}
 tmp=$(mktemp)
-sed -e 's#^module .*#module verifharness#' /repo/go.mod > "$tmp"
+sed -e 's#^module .*#module verifharness#' $R/go.mod > "$tmp"
 cat >> "$tmp" <<EOT
 
 require github.com/influxdata/kapacitor v0.0.0
 
-replace github.com/influxdata/kapacitor => /repo
+replace github.com/influxdata/kapacitor => $R
 
 replace github.com/influxdata/flux => $V/build/flux
 EOT
 if ! cmp -s "$tmp" "$H/go.mod"; then cp "$tmp" "$H/go.mod"; fi
 rm -f "$tmp"
-if ! cmp -s /repo/go.sum "$H/go.sum"; then cp /repo/go.sum "$H/go.sum"; fi
+if ! cmp -s $R/go.sum "$H/go.sum"; then cp $R/go.sum "$H/go.sum"; fi
